@@ -51,6 +51,25 @@ var poolTopos = []*topology.FunctionTopology{
 
 var poolTopoNames = []string{"f0", "f1", "f2", "f3"}
 
+// probes: the pool topologies plus functions of the same shape (same topology
+// and fuzzy hash) whose entropy differs - asked back to back, with no write in
+// between, they must still get their own answers
+var probeTopos, probeNames = func() ([]*topology.FunctionTopology, []string) {
+	ts := append([]*topology.FunctionTopology(nil), poolTopos...)
+	ns := append([]string(nil), poolTopoNames...)
+	for _, v := range []struct {
+		of int
+		e  float64
+		n  string
+	}{{0, 4.62, "f0e"}, {2, 4.2, "f2e"}, {0, 3.4, "f0l"}} {
+		c := *poolTopos[v.of]
+		c.EntropyScore = v.e
+		ts = append(ts, &c)
+		ns = append(ns, v.n)
+	}
+	return ts, ns
+}()
+
 func topoHashes() []string {
 	var hs []string
 	for _, t := range poolTopos {
@@ -349,8 +368,8 @@ func checkAll(s *PebbleScanner, m *storeModel, scope checkScope, withExport bool
 	// scans
 	batchIn := map[string]*topology.FunctionTopology{}
 	batchWant := map[string]map[string]detection.ScanResult{}
-	for i, topo := range poolTopos {
-		name := poolTopoNames[i]
+	for i, topo := range probeTopos {
+		name := probeNames[i]
 		what := fmt.Sprintf("%sScanTopology(%s thr=%v tol=%v)", tag, name, m.threshold, m.tolerance)
 		want := specAlerts(m.sigs, topo, name, m.threshold, m.tolerance, false)
 		got, err := s.ScanTopology(topo, name)
